@@ -44,4 +44,38 @@ for k in range(0, 4):
             if list(chosen) != exp_sel or list(rest) != exp_rest:
                 verdict(True, "select_conflicts is not the order-preserving partition by path / file id",
                         input=dict(paths=list(sel), recurse=recurse), observed=[repr(list(chosen)), repr(list(rest))], expected=[repr(exp_sel), repr(exp_rest)])
+
+# persistence: whatever list is stored is read back field by field after re-opening the tree, also when it replaces a list that
+# differs from it in a single field
+import shutil, tempfile
+from breezy import controldir
+base = tempfile.mkdtemp(prefix="c20_")
+try:
+    fmt = controldir.format_registry.make_controldir("2a")
+    cd = fmt.initialize(base); cd.create_repository(); cd.create_branch(); wt = cd.create_workingtree()
+
+    def fields(c):
+        return tuple((k, getattr(c, k, None)) for k in ("typestring", "path", "file_id", "conflict_path", "conflict_file_id", "action"))
+    variants = [
+        [bc.PathConflict("e", "e2", file_id=b"ide"), bc.ContentsConflict("k", file_id=b"idk")],
+        [bc.PathConflict("e", "e3", file_id=b"ide"), bc.ContentsConflict("k", file_id=b"idk")],       # only conflict_path differs
+        [bc.PathConflict("e", "e3", file_id=b"ide"), bc.ContentsConflict("k", file_id=b"idk2")],      # only a file id differs
+        [bc.DuplicateEntry("dup", "d/x.moved", "d/x", file_id=b"idm", conflict_file_id=b"idx")],
+        [bc.DuplicateEntry("dup", "d/x.moved", "d/x", file_id=b"idm", conflict_file_id=b"idy")],      # only conflict_file_id differs
+        [bc.DuplicateEntry("dup", "d/x.moved", "d/y", file_id=b"idm", conflict_file_id=b"idy")],
+        [],
+        [bc.TextConflict("a\u00e5", file_id=b"ida")],
+    ]
+    for first in variants:
+        for second in variants:
+            tried += 1
+            wt.set_conflicts(bc.ConflictList(first))
+            wt.set_conflicts(bc.ConflictList(second))
+            back = wt.controldir.open_workingtree().conflicts()
+            if [fields(c) for c in back] != [fields(c) for c in second]:
+                verdict(True, "a stored conflict list is not read back identically after it replaced a similar list",
+                        input=dict(first=[repr(c) for c in first], second=[repr(c) for c in second]),
+                        observed=[fields(c) for c in back], expected=[fields(c) for c in second])
+finally:
+    shutil.rmtree(base, ignore_errors=True)
 verdict(False, "no failing input among %d" % tried)
